@@ -419,12 +419,14 @@ CxProgOf(full, sd, d) ==
       lc == IF CxLc(d) = 0 THEN 1 ELSE CxLc(d)
   IN CtxProg(CxC(d), CxShapes(full, sd, lk)[CxS(d)], ELit(TL[lc]))
 
-(* full: every (context, shape, shape literal); the context literal = the shape's literal and one
-   seeded literal of another type (shapes without a slot: every context literal).
-   ~full (quick tier): a COVERING sample - every (context, shape) pair once with the literal types
-   agreeing (the context's own literal, or the type the context asks for), and for a seeded third
-   of the pairs once more with the types differing *)
-CxDescs(full, sd) ==
+(* The COVERING sample (always included; all of the quick tier): every (context, shape) pair once
+   with the literal types agreeing (the context's own literal, or the type the context asks for),
+   and for a seeded third of the pairs once more with the types differing.
+   The full product: every (context, shape, shape literal); the context literal = the shape's
+   literal and one seeded literal of another type (shapes without a slot: every context literal).
+   mod = 0: the covering sample only; mod >= 1: plus the seeded 1/mod of the full product. *)
+CxTake(sd, mod, d) == mod # 0 /\ (mod = 1 \/ RngOut(RngInit(sd + 3, d)) % mod = 0)
+CxDescs(full, sd, mod) ==
   LET s1 == CxShapes(full, sd, 1)
       s2 == CxShapes(full, sd, 2)
       NS == Len(s1)
@@ -435,13 +437,13 @@ CxDescs(full, sd) ==
             lkA == IF CtxHasLit(c) THEN (IF h2 % 2 = 0 THEN h1 ELSE Sib(h1))
                    ELSE IF nat = 4 THEN 7 + (h1 % 2) ELSE IF nat # 0 THEN 2 * nat - (h1 % 2) ELSE h1
             more == (c + s + sd) % 3 = 0
-        IN IF full
-           THEN IF Slot(s) THEN IF CtxHasLit(c) THEN UNION {{CxEnc(c, s, lk, lc) : lc \in {lk, DiffTy(lk, h1)}} : lk \in 1..NTL}
-                                ELSE {CxEnc(c, s, lk, 0) : lk \in 1..NTL}
-                ELSE IF CtxHasLit(c) THEN {CxEnc(c, s, 0, lc) : lc \in 1..NTL} ELSE {CxEnc(c, s, 0, 0)}
-           ELSE IF Slot(s) THEN IF CtxHasLit(c) THEN {CxEnc(c, s, lkA, h1)} \cup (IF more THEN {CxEnc(c, s, DiffTy(h1, h2), h1)} ELSE {})
-                                ELSE {CxEnc(c, s, lkA, 0)} \cup (IF more THEN {CxEnc(c, s, DiffTy(lkA, h2), 0)} ELSE {})
-                ELSE IF CtxHasLit(c) THEN {CxEnc(c, s, 0, h1)} ELSE {CxEnc(c, s, 0, 0)}
+            cover == IF Slot(s) THEN IF CtxHasLit(c) THEN {CxEnc(c, s, lkA, h1)} \cup (IF more THEN {CxEnc(c, s, DiffTy(h1, h2), h1)} ELSE {})
+                                     ELSE {CxEnc(c, s, lkA, 0)} \cup (IF more THEN {CxEnc(c, s, DiffTy(lkA, h2), 0)} ELSE {})
+                     ELSE IF CtxHasLit(c) THEN {CxEnc(c, s, 0, h1)} ELSE {CxEnc(c, s, 0, 0)}
+            all == IF Slot(s) THEN IF CtxHasLit(c) THEN UNION {{CxEnc(c, s, lk, lc) : lc \in {lk, DiffTy(lk, h1)}} : lk \in 1..NTL}
+                                   ELSE {CxEnc(c, s, lk, 0) : lk \in 1..NTL}
+                   ELSE IF CtxHasLit(c) THEN {CxEnc(c, s, 0, lc) : lc \in 1..NTL} ELSE {CxEnc(c, s, 0, 0)}
+        IN cover \cup (IF mod = 0 THEN {} ELSE {d \in all : CxTake(sd, mod, d)})
   IN UNION {OneP(c, s) : c \in 1..NCtx, s \in 1..NS}
 CxPairs(ds) == {<<CxC(d), CxS(d)>> : d \in ds}
 
@@ -478,15 +480,16 @@ XcProgOf(sd, d) ==
   CtxProg(CxC(d), XcShapes(sd, CxLk(d))[CxS(d)], IF CxLc(d) = 0 THEN ELit(TL[1]) ELSE KC(CxLc(d)))
 (* contexts inside one expression: there a substituted constant can enable a second rewrite *)
 XcExprCtx == {1, 2, 3, 4, 8, 9, 11, 13, 14, 15, 29}
-XcDescs(full, sd) ==
+XcDescs(sd, mod) ==
   LET NS == Len(XcShapes(sd, 1))
       OneP(c, s) ==
         LET h1 == CxH(sd, c, s, 3)  h2 == CxH(sd, c, s, 4)
             lcs(ck) == IF CtxHasLit(c) THEN {ck, DiffTy(ck, h2)} ELSE {0}
             lc1(ck) == IF CtxHasLit(c) THEN (IF h2 % 2 = 0 THEN ck ELSE DiffTy(ck, h2)) ELSE 0
-        IN IF full THEN UNION {{CxEnc(c, s, ck, lc) : lc \in lcs(ck)} : ck \in 1..NTL}
-           ELSE {CxEnc(c, s, h1, lc1(h1))}
-                \cup (IF c \in XcExprCtx THEN {CxEnc(c, s, FlipTruth(h1, h2), lc1(FlipTruth(h1, h2)))} ELSE {})
+            cover == {CxEnc(c, s, h1, lc1(h1))}
+                     \cup (IF c \in XcExprCtx THEN {CxEnc(c, s, FlipTruth(h1, h2), lc1(FlipTruth(h1, h2)))} ELSE {})
+            all == UNION {{CxEnc(c, s, ck, lc) : lc \in lcs(ck)} : ck \in 1..NTL}
+        IN cover \cup (IF mod = 0 THEN {} ELSE {d \in all : CxTake(sd, mod, d)})
   IN UNION {OneP(c, s) : c \in 1..NCtx, s \in 1..NS}
 
 (* ------------------------------------------------------------------ *)
